@@ -88,6 +88,7 @@ Calls(s) ==
           cd \in {"evm", "multisig"}}
   \cup {Blank @@ [a |-> "Exec4", from |-> <<"builtin", "power">>, ct |-> "power", f4 |-> X1, init |-> "ok",
                   code |-> cd] : cd \in {"evm", "multisig"}}
+  \cup {Blank @@ [a |-> "Retire", from |-> K1] : x \in {i \in Ids(s) : s.act[i].code = "paych"}}
   \cup {Blank @@ [a |-> "CreateExternal", from |-> f, init |-> i] :
           f \in Senders(s), i \in {"ok", "revert", "sd", "empty", "reenter"}}
   \cup UNION {{Blank @@ [a |-> "Invoke", from |-> K1, to |-> t, prog |-> p] : p \in Progs(s, t)} :
@@ -153,6 +154,7 @@ ResShape(res) == [k \in 1..Len(res) |-> <<res[k].kind, res[k].init, res[k].ok, r
 Sig(s, c) ==
   CASE c.a = "Send" -> <<"Send", AddrClass(s, c.to)>>
     [] c.a = "Exec" -> <<"Exec", c.ct, c.code, c.ctorOK, c.extra # None, c.ok>>
+    [] c.a = "Retire" -> <<"Retire", c.ok>>
     [] c.a = "Exec4" -> <<"Exec4", c.ct, AddrClass(s, c.f4), c.init, c.ok,
                           IF "code" \in DOMAIN c THEN c.code ELSE "evm">>
     [] c.a = "CreateExternal" -> <<"CreateExternal", AddrClass(s, c.from), c.init, ResShape(c.res), c.ok>>
